@@ -260,3 +260,50 @@ def read_ndjson(path):
             if l:
                 res.append(json.loads(l))
     return res
+
+
+# ------------------------------------------------------------------ trace validation
+def validate_trace(trace_spec, trace_path, wd, name=None, timeout=1800, extra_cfg=""):
+    """Validate an NDJSON trace against spec/trace/<trace_spec>.tla.  Returns (accepted, info):
+    info = dict(states, rejected_at (1-based line or None), event)."""
+    cfg = "SPECIFICATION Spec\nPOSTCONDITION Accepted\nCHECK_DEADLOCK FALSE\n" + extra_cfg
+    if os.path.getsize(trace_path) == 0:
+        return True, {"states": 0, "rejected_at": None}
+    res = run_tlc("trace/" + trace_spec, cfg, wd, workers=1, timeout=timeout, depth_first=True,
+                  env_extra={"TRACE": trace_path}, name=name or trace_spec, heap="6g")
+    out = res["out"]
+    m = re.search(r'<<"REJECTED-AT", (\d+)', out)
+    if m:
+        return False, {"states": res["generated"], "rejected_at": int(m.group(1)), "out": out}
+    if "Postcondition" in out and "is false" in out:
+        return False, {"states": res["generated"], "rejected_at": res["generated"], "out": out}
+    if res.get("fatal") or not res["ok"]:
+        log("\n".join(out.splitlines()[-30:]))
+        raise ToolError(f"TLC failed while validating {trace_path} against {trace_spec}")
+    return True, {"states": res["generated"], "rejected_at": None}
+
+
+def validate_runs(trace_spec, trace_path, wd, on_reject, max_rounds=12, run_key="run", name=None):
+    """Validate a concatenation of runs; when a run is rejected report it through
+    on_reject(run_id, line_no, event) and re-validate without that run so that the rest of the
+    trace is still examined.  Returns (total_states, rejected_run_ids)."""
+    total = 0
+    rejected = []
+    path = trace_path
+    for rnd in range(max_rounds):
+        ok, info = validate_trace(trace_spec, path, wd, name=name)
+        total = max(total, info["states"])
+        if ok:
+            return total, rejected
+        with open(path) as f:
+            lines = f.readlines()
+        ln = min(info["rejected_at"], len(lines))
+        ev = json.loads(lines[ln - 1])
+        rid = ev.get(run_key)
+        rejected.append(rid)
+        on_reject(rid, ln, ev, lines)
+        keep = [l for l in lines if json.loads(l).get(run_key) != rid]
+        path = trace_path + f".r{rnd}"
+        with open(path, "w") as f:
+            f.writelines(keep)
+    raise ToolError(f"more than {max_rounds} rejected runs in {trace_path}; stopping")
